@@ -240,6 +240,22 @@ func opProbeRules(rng *rand.Rand) ([]RuleDesc, error) {
 		if err := mk(two, "x", 0, false); err != nil {
 			return nil, err
 		}
+		if cl, ok := opValueCls[op.Name]; ok {
+			// value-typed forms: the probe as the right operand of a comparison, and behind a constant that is moved to the right
+			form := func(v string) string { return strings.ReplaceAll(op.Form, "$Value", fmt.Sprintf("%q", v)) }
+			for _, pv := range []struct {
+				alts []Alt
+				v    string
+			}{{one, "nosuch"}, {two, "y"}, {two, "x"}} {
+				right := Atom{Src: form("x") + " == " + form(pv.v), Vars: []string{"x", pv.v}, Uses: [][2]string{{op.Name, "x"}, {op.Name, pv.v}},
+					Extra: []string{}, Chk: "binary", Eq: true, L: cl[0], R: cl[0]}
+				swapped := Atom{Src: cl[1] + " != " + form(pv.v), Vars: []string{pv.v}, Uses: [][2]string{{op.Name, pv.v}},
+					Extra: []string{}, Chk: "binary", Eq: true, L: "lit", R: cl[0]}
+				for _, a := range []Atom{right, swapped} {
+					out = append(out, RuleDesc{Alts: pv.alts, Report: "msg", Probe: op.Name + ":" + pv.v, Where: a.Src, Atoms: []Atom{a}})
+				}
+			}
+		}
 		if err := mk(one, "nosuch", 0, true); err != nil {
 			return nil, err
 		}
